@@ -321,6 +321,17 @@ def _read_spellings(repo, nf, fn, cq):
             if isinstance(f_, ast.Name) and f_.id == "len" and "len" not in stored | params and len(c.args) == 1 and not c.keywords and isinstance(c.args[0], ast.Name) and c.args[0].id == "self" and len_expr is not None:
                 changed[0] = True
                 return ast.copy_location(clone(len_expr), c)
+            # `np.take(A, i)` / `A.take(i)` without axis / mode / out is `A[i]` for the one-dimensional arrays of this class
+            if isinstance(f_, ast.Attribute) and f_.attr == "take" and not c.keywords and not any(isinstance(a, ast.Starred) for a in c.args):
+                if isinstance(f_.value, ast.Name) and f_.value.id == npn and npn not in stored | params and len(c.args) == 2:
+                    changed[0] = True
+                    return ast.copy_location(ast.Subscript(value=c.args[0], slice=c.args[1], ctx=ast.Load()), c)
+                root = f_.value
+                while isinstance(root, (ast.Attribute, ast.Subscript)):
+                    root = root.value
+                if isinstance(root, ast.Name) and (root.id == "self" or root.id in stored | params) and len(c.args) == 1 and not (isinstance(f_.value, ast.Name) and f_.value.id == npn):
+                    changed[0] = True
+                    return ast.copy_location(ast.Subscript(value=f_.value, slice=c.args[0], ctx=ast.Load()), c)
             return c
     new = T().visit(new)
     # in-place accumulation into a fresh local
